@@ -617,6 +617,21 @@ func (r *Reader) refsForIndexed(oid []byte) (*Iterator, error) {
 		return &Iterator{&emptyIterator{}}, nil
 	}
 
+	if len(got.Offsets) == 0 {
+		// The writer omits the position list if it does not fit in a
+		// block; the object may then be anywhere, so scan all refs.
+		it, err := r.start(blockTypeRef, false)
+		if err != nil {
+			return nil, err
+		}
+		return &Iterator{&filteringRefIterator{
+			tab:         r,
+			oid:         oid,
+			doubleCheck: false,
+			it:          it,
+		}}, nil
+	}
+
 	tr := &indexedTableRefIter{
 		r:       r,
 		oid:     oid,
